@@ -34,7 +34,7 @@ def main():
     patch = os.path.join(seed, "patch.diff")
     demo = os.path.join(seed, "demo.py")
     env = dict(os.environ, PYTHONPATH=REPO)
-    r = sh(["/venv/bin/python", demo], env=env, cwd="/tmp")
+    r = sh(["/venv/bin/python", demo], env=env, cwd="/repo")
     out["demo_clean_exit"] = r.returncode
     a = sh(["git", "-C", REPO, "apply", patch])
     if a.returncode != 0:
@@ -42,7 +42,7 @@ def main():
     try:
         t = sh("cd /repo && /venv/bin/python -m pytest -q -p no:cacheprovider --continue-on-collection-errors 2>&1 | tail -1")
         out["tests"] = t.stdout.strip()
-        r = sh(["/venv/bin/python", demo], env=env, cwd="/tmp")
+        r = sh(["/venv/bin/python", demo], env=env, cwd="/repo")
         out["demo_mutated_exit"] = r.returncode
         out["checks"] = {}
         for p in props:
